@@ -1,7 +1,6 @@
 package main
 
 import (
-	"strings"
 	"context"
 	"errors"
 	"fmt"
@@ -9,6 +8,7 @@ import (
 	"math/big"
 	"math/rand"
 	"runtime"
+	"strings"
 	"time"
 
 	"github.com/bnb-chain/tss-lib/v2/common"
@@ -140,7 +140,9 @@ func runC19(r *Run, rng *rand.Rand, thorough bool) {
 			r.Evals++
 			r.Dist[fmt.Sprintf("safe-primes/bits=%d", bl)]++
 			if !ok {
-				r.Assert(false, "common.GetRandomSafePrimesConcurrent/returns", "generator-returns", func() string { return fmt.Sprintf("bitLen=%d num=%d concurrency=%d did not return within 120 s", bl, num, conc) })
+				r.Assert(false, "common.GetRandomSafePrimesConcurrent/returns", "generator-returns", func() string {
+					return fmt.Sprintf("bitLen=%d num=%d concurrency=%d did not return within 120 s", bl, num, conc)
+				})
 				continue
 			}
 			r.Distinct++
